@@ -279,7 +279,8 @@ ADDED4 = {
     "C03": " An amplifier with every kind of scripted agent that draws (random, periodic with variance and several start nodes, red, probabilistic).",
     "C04": " Instance runs drive an attacker's tool themselves (malicious traffic, which the process-relevant NMNE options count); a sibling with equal options is built, used and closed around A's steps.",
     "C05": " Clause AbsentNeverSucceeds: a request addressed to a component that does not exist by the simulator's own component tables (whatever routes are registered) "
-           "is refused and changes nothing; directed histories address every request of an application after its uninstall.",
+           "is refused and changes nothing; directed histories address every request of an application after its uninstall, and probe / execute the "
+           "actions of nodes of every kind that the scenario declares OFF and that are started later.",
     "C08": " A ninth topology: the hosts' gateway routes back out of the interface the packet arrived on (hairpin).",
     "C10": " A third of the sharing graphs mixes learning and scripted agents.",
     "C11": " Action maps without an always-permitted entry (every entry refused at once while the host is in a timed transition).",
